@@ -60,6 +60,13 @@ func (x *Exec) evalCall(n *ast.CallExpr, st *State) (Val, *State) {
 	qn := c.eng.qualName(callee)
 	// contract?
 	if ct := c.eng.contracts[qn]; ct != nil && !(x.depth == 0 && qn == c.fn && false) {
+		// `inline F` in a theorem: execute F's body (its callees are still replaced by their contracts)
+		short := qn[strings.LastIndex(qn, "/")+1:]
+		if x.contract != nil && x.depth == 0 && (x.contract.Inline[qn] || x.contract.Inline[short] || x.contract.Inline[short[strings.Index(short, ".")+1:]]) {
+			if fd := c.eng.funcDecl(callee); fd != nil {
+				return x.inlineCall(callee, fd, n, recvExpr, st)
+			}
+		}
 		return x.callByContract(ct, callee, n, recvExpr, st)
 	}
 	// extern handler?
